@@ -229,6 +229,137 @@ MUTANTS += [
       (M, "            timeouts.recycle,\n            self.inner.manager.recycle", "            self.inner.config.timeouts.create,\n            self.inner.manager.recycle")),
 ]
 
+MUTANTS += [
+    m('B09-1', 'retain: predicate negated', ['C09'], ['R09.1'],
+      (M, "            if predicate(&mut obj.obj, obj.metrics) {", "            if !predicate(&mut obj.obj, obj.metrics) {")),
+    m('B09-2', 'retain: size not reduced', ['C09', 'C11'], ['R09.1', 'R11.2'],
+      (M, "        guard.size -= removed.len();\n", "")),
+    m('B09-3', 'retain: no detach', ['C09'], ['R09.1', 'R09.3'],
+      (M, "                self.manager().detach(&mut obj.obj);\n", "")),
+    m('B09-4', 'detach_object: no Manager::detach', ['C09'], ['R09.2', 'R09.3'],
+      (M, "            self.semaphore.add_permits(1);\n        }\n        self.manager.detach(obj);", "            self.semaphore.add_permits(1);\n        }\n        let _ = obj;")),
+    m('B09-5', 'revert D2: shrink drops objects without detach', ['C09'], ['R09.4', 'R09.3'],
+      (M, "                    if let Some(mut obj) = slots.vec.pop_front() {\n                        slots.size -= 1;\n                        self.inner.manager.detach(&mut obj.obj);\n                    }", "                    if slots.vec.pop_front().is_some() {\n                        slots.size -= 1;\n                    }")),
+    m('B09-6', 'retain: swap_remove_back instead of remove', ['C09', 'C08'], ['R09.1', 'R08.2'],
+      (M, "let mut obj = guard.vec.remove(i).unwrap();", "let mut obj = guard.vec.swap_remove_back(i).unwrap();")),
+    m('B09-7', 'retain: removes index 0 instead of i', ['C09'], ['R09.1'],
+      (M, "let mut obj = guard.vec.remove(i).unwrap();", "let mut obj = guard.vec.remove(0).unwrap();")),
+    m('B09-8', 'return_object: surplus object dropped without detach', ['C09'], ['R09.4', 'R09.3'],
+      (M, "            slots.size -= 1;\n            drop(slots);\n            self.manager.detach(&mut inner.obj);", "            slots.size -= 1;\n            drop(slots);")),
+    m('B09-9', 'detach_object: users not decremented', ['C09', 'C11'], ['R09.2', 'R11.2'],
+      (M, "    fn detach_object(&self, obj: &mut M::Type) {\n        let _ = self.users.fetch_sub(1, Ordering::Relaxed);", "    fn detach_object(&self, obj: &mut M::Type) {")),
+    m('B09-10', 'retain also adds permits for removed objects', ['C09', 'C01'], ['R09.1', 'R01.4'],
+      (M, "        guard.size -= removed.len();\n", "        guard.size -= removed.len();\n        self.inner.semaphore.add_permits(removed.len());\n")),
+    m('B09-11', 'return_object detaches and still keeps the object', ['C09'], ['R09.3'],
+      (M, "        if slots.size <= slots.max_size {\n            slots.vec.push_back(inner);", "        if slots.size <= slots.max_size {\n            self.manager.detach(&mut inner.obj);\n            slots.vec.push_back(inner);")),
+    m('B09-12', 'retain: retained reports the number removed', ['C09'], ['R09.1'],
+      (M, "            retained: i,", "            retained: removed.len(),")),
+    m('B09-13', 'resize clears the queue without detach', ['C09'], ['R09.4'],
+      (M, "            // Create a new VecDeque with a smaller capacity", "            if max_size == 0 {\n                slots.size -= slots.vec.len();\n                slots.vec.clear();\n            }\n            // Create a new VecDeque with a smaller capacity")),
+]
+
+MUTANTS += [
+    m('B07-1', 'grow adds max_size permits instead of the delta', ['C07'], ['R07.2'],
+      (M, "            self.inner.semaphore.add_permits(additional);", "            self.inner.semaphore.add_permits(slots.max_size);")),
+    m('B07-2', 'resize does not store max_size', ['C07'], ['R07.1', 'R07.2'],
+      (M, "        slots.max_size = max_size;\n", "")),
+    m('B07-3', 'shrink pops without size -= 1', ['C07', 'C11'], ['R07.3'],
+      (M, "                    if let Some(mut obj) = slots.vec.pop_front() {\n                        slots.size -= 1;\n", "                    if let Some(mut obj) = slots.vec.pop_front() {\n")),
+    m('B07-4', 'shrink pops without forgetting a permit', ['C07', 'C01'], ['R07.3'],
+      (M, "                if let Ok(permit) = self.inner.semaphore.try_acquire() {\n                    permit.forget();", "                if let Ok(_permit) = self.inner.semaphore.try_acquire() {")),
+    m('B07-5', 'grow condition >=', ['C07'], ['R07.2'],
+      (M, "        if max_size > old_max_size {\n            let additional = slots.max_size - old_max_size;", "        if max_size >= old_max_size {\n            let additional = slots.max_size - old_max_size;")),
+    m('B07-6', 'grow computes old - new (swapped, guarded by <)', ['C07'], ['R07.2'],
+      (M, "        if max_size > old_max_size {\n            let additional = slots.max_size - old_max_size;", "        if max_size < old_max_size {\n            let additional = old_max_size - slots.max_size;")),
+    m('B07-7', 'resize stores max_size + 1', ['C07'], ['R07.1'],
+      (M, "        slots.max_size = max_size;\n", "        slots.max_size = max_size + 1;\n")),
+    m('B07-8', 'return_object keeps surplus objects when only one over', ['C07', 'C01'], ['R07.4', 'R01.4'],
+      (M, "        if slots.size <= slots.max_size {\n            slots.vec.push_back(inner);", "        if slots.size <= slots.max_size + 1 {\n            slots.vec.push_back(inner);")),
+    m('B07-9', 'forget a permit without try_acquire success check (forget many)', ['C07'], ['R07.3'],
+      (M, "                    permit.forget();\n                    if let Some(mut obj)", "                    permit.forget();\n                    if let Ok(p2) = self.inner.semaphore.try_acquire() { p2.forget(); }\n                    if let Some(mut obj)")),
+]
+
+MUTANTS += [
+    m('B06-1', 'close: Semaphore::close before resize(0)', ['C06'], ['R06.1'],
+      (M, "        self.resize(0);\n        self.inner.semaphore.close();\n", "        self.inner.semaphore.close();\n        self.resize(0);\n")),
+    m('B06-2', 'close: resize(1)', ['C06'], ['R06.1'],
+      (M, "        self.resize(0);\n        self.inner.semaphore.close();\n", "        self.resize(1);\n        self.inner.semaphore.close();\n")),
+    m('B06-3', 'resize: no early return when closed', ['C06'], ['R06.2'],
+      (M, "        if self.inner.semaphore.is_closed() {\n            return;\n        }\n        let mut slots", "        let mut slots")),
+    m('B06-4', 'revert D6: close does not drain', ['C06'], ['R06.5'],
+      (M, """        let mut slots = self.inner.slots.lock().unwrap();
+        while let Some(mut obj) = slots.vec.pop_front() {
+            slots.size -= 1;
+            self.inner.manager.detach(&mut obj.obj);
+        }
+    }""", "    }")),
+    m('B06-5', 'close drains only one object', ['C06'], ['R06.5'],
+      (M, "        while let Some(mut obj) = slots.vec.pop_front() {\n            slots.size -= 1;\n            self.inner.manager.detach(&mut obj.obj);\n        }\n    }", "        if let Some(mut obj) = slots.vec.pop_front() {\n            slots.size -= 1;\n            self.inner.manager.detach(&mut obj.obj);\n        }\n    }")),
+    m('B06-6', 'blocking acquire error mapped to Timeout(Wait)', ['C06', 'C04'], ['R06.3', 'R04.5'],
+      (M, "                        .map_err(|_| PoolError::Closed)\n                },", "                        .map_err(|_| PoolError::Timeout(TimeoutType::Wait))\n                },")),
+    m('B06-7', 'try_acquire Closed mapped to Timeout', ['C06'], ['R06.3'],
+      (M, "                TryAcquireError::Closed => PoolError::Closed,", "                TryAcquireError::Closed => PoolError::Timeout(TimeoutType::Wait),")),
+    m('B06-8', 'close drain does not release the size slot', ['C06', 'C11'], ['R06.5', 'R11.2'],
+      (M, "        while let Some(mut obj) = slots.vec.pop_front() {\n            slots.size -= 1;\n            self.inner.manager.detach", "        while let Some(mut obj) = slots.vec.pop_front() {\n            self.inner.manager.detach")),
+    m('B06-9', 'is_closed reports on max_size instead of the semaphore', ['C06'], ['R06.2'],
+      (M, "    pub fn is_closed(&self) -> bool {\n        self.inner.semaphore.is_closed()", "    pub fn is_closed(&self) -> bool {\n        self.inner.slots.lock().unwrap().max_size == 0")),
+    m('B06-10', 'resize closed test after the max_size write', ['C06'], ['R06.2'],
+      (M, "        if self.inner.semaphore.is_closed() {\n            return;\n        }\n        let mut slots = self.inner.slots.lock().unwrap();\n        let old_max_size = slots.max_size;\n        slots.max_size = max_size;\n",
+          "        let mut slots = self.inner.slots.lock().unwrap();\n        let old_max_size = slots.max_size;\n        slots.max_size = max_size;\n        if self.inner.semaphore.is_closed() {\n            return;\n        }\n")),
+
+    m('B08-1', 'pop_front / pop_back swapped between the modes', ['C08'], ['R08.1'],
+      (M, "                QueueMode::Fifo => self.inner.slots.lock().unwrap().vec.pop_front(),\n                QueueMode::Lifo => self.inner.slots.lock().unwrap().vec.pop_back(),", "                QueueMode::Fifo => self.inner.slots.lock().unwrap().vec.pop_back(),\n                QueueMode::Lifo => self.inner.slots.lock().unwrap().vec.pop_front(),")),
+    m('B08-2', 'return_object: push_front', ['C08'], ['R08.2'],
+      (M, "            slots.vec.push_back(inner);", "            slots.vec.push_front(inner);")),
+    m('B08-3', 'from_builder eagerly calls detach on nothing (manager touched at build)', ['C08'], ['R08.4'],
+      (M, "    pub(crate) fn from_builder(builder: PoolBuilder<M, W>) -> Self {\n        Self {", "    pub(crate) fn from_builder(builder: PoolBuilder<M, W>) -> Self {\n        drop(builder.manager.create());\n        Self {")),
+    m('B08-4', 'getter creates a spare object even when an idle one was found', ['C08'], ['R08.3'],
+      (M, "            let inner_obj = if let Some(inner_obj) = inner_obj {\n                self.try_recycle(timeouts, inner_obj).await?", "            let inner_obj = if let Some(inner_obj) = inner_obj {\n                if inner_obj.metrics.recycle_count > 1_000_000 {\n                    self.inner.slots.lock().unwrap().vec.push_back(inner_obj);\n                    return self.try_create(timeouts).await.map(|o| Object { inner: o, pool: Arc::downgrade(&self.inner) }.into());\n                }\n                self.try_recycle(timeouts, inner_obj).await?")),
+    m('B08-5', 'both modes pop from the front', ['C08'], ['R08.1'],
+      (M, "                QueueMode::Lifo => self.inner.slots.lock().unwrap().vec.pop_back(),", "                QueueMode::Lifo => self.inner.slots.lock().unwrap().vec.pop_front(),")),
+    m('B08-6', 'resize re-queues idle objects reversed', ['C08'], ['R08.2'],
+      (M, "            for obj in slots.vec.drain(..) {\n                vec.push_back(obj);", "            for obj in slots.vec.drain(..) {\n                vec.push_front(obj);")),
+    m('B08-7', 'status() pings the manager', ['C08'], ['R08.4'],
+      (M, "        let slots = self.inner.slots.lock().unwrap();\n        let users = self.inner.users.load(Ordering::Relaxed);", "        drop(self.inner.manager.create());\n        let slots = self.inner.slots.lock().unwrap();\n        let users = self.inner.users.load(Ordering::Relaxed);")),
+    m('B08-8', 'getter ignores the configured mode (uses default)', ['C08'], ['R08.1'],
+      (M, "            let inner_obj = match self.inner.config.queue_mode {", "            let inner_obj = match QueueMode::default() {")),
+
+    m('B11-1', 'status: both branches subtract size - users', ['C11'], ['R11.1'],
+      (M, "            (0, users - slots.size)", "            (0, slots.size - users)")),
+    m('B11-2', 'status: users loaded after the guard is dropped', ['C11'], ['R11.1'],
+      (M, "        let slots = self.inner.slots.lock().unwrap();\n        let users = self.inner.users.load(Ordering::Relaxed);\n        let (available, waiting) = if users < slots.size {\n            (slots.size - users, 0)\n        } else {\n            (0, users - slots.size)\n        };\n        Status {\n            max_size: slots.max_size,\n            size: slots.size,",
+          "        let slots = self.inner.slots.lock().unwrap();\n        let (size, max_size) = (slots.size, slots.max_size);\n        drop(slots);\n        let users = self.inner.users.load(Ordering::Relaxed);\n        let (available, waiting) = if users < size {\n            (size - users, 0)\n        } else {\n            (0, users - size)\n        };\n        Status {\n            max_size,\n            size,")),
+    m('B11-3', 'status: comparison <= swapped to >', ['C11'], ['R11.1'],
+      (M, "        let (available, waiting) = if users < slots.size {", "        let (available, waiting) = if users > slots.size {")),
+    m('B11-4', 'status reports max_size as size', ['C11'], ['R11.4'],
+      (M, "            max_size: slots.max_size,\n            size: slots.size,", "            max_size: slots.max_size,\n            size: slots.max_size,")),
+    m('B11-5', 'status swaps available and waiting', ['C11'], ['R11.4'],
+      (M, "            available,\n            waiting,\n        }", "            available: waiting,\n            waiting: available,\n        }")),
+    m('B11-6', 'return_object forgets users -= 1', ['C11'], ['R11.2'],
+      (M, "    fn return_object(&self, mut inner: ObjectInner<M>) {\n        let _ = self.users.fetch_sub(1, Ordering::Relaxed);", "    fn return_object(&self, mut inner: ObjectInner<M>) {")),
+    m('B11-7', 'retain also writes max_size', ['C11'], ['R11.2'],
+      (M, "        guard.size -= removed.len();\n", "        guard.size -= removed.len();\n        guard.max_size = guard.max_size.max(guard.size);\n")),
+
+    m('B13-1', 'recycle_count bumped before the post_recycle hooks', ['C13'], ['R13.2'],
+      (M, "        // Apply post_recycle hooks\n        if let Err(_e) = self.inner.hooks.post_recycle.apply(inner).await {", "        inner.metrics.recycle_count += 1;\n        // Apply post_recycle hooks\n        if let Err(_e) = self.inner.hooks.post_recycle.apply(inner).await {"),
+      (M, "        inner.metrics.recycle_count += 1;\n        #[cfg(not(target_arch", "        #[cfg(not(target_arch")),
+    m('B13-2', 'return_object stamps metrics.recycled', ['C13'], ['R13.1'],
+      (M, "        let mut slots = self.slots.lock().unwrap();\n        if slots.size <= slots.max_size {\n            slots.vec.push_back(inner);", "        inner.metrics.recycled = Some(Instant::now());\n        let mut slots = self.slots.lock().unwrap();\n        if slots.size <= slots.max_size {\n            slots.vec.push_back(inner);")),
+    m('B13-3', 'recycler resets metrics on success', ['C13'], ['R13.1'],
+      (M, "        inner.metrics.recycle_count += 1;\n        #[cfg(not(target_arch", "        inner.metrics = Metrics::default();\n        inner.metrics.recycle_count += 1;\n        #[cfg(not(target_arch")),
+    m('B13-4', 'recycle_count += 2', ['C13'], ['R13.1'],
+      (M, "        inner.metrics.recycle_count += 1;", "        inner.metrics.recycle_count += 2;")),
+    m('B13-5', 'retain passes fresh default metrics to the predicate', ['C13'], ['R13.3'],
+      (M, "            if predicate(&mut obj.obj, obj.metrics) {", "            if predicate(&mut obj.obj, Metrics::default()) {")),
+    m('B13-6', 'recycled set to created instead of now', ['C13'], ['R13.1'],
+      (M, "            inner.metrics.recycled = Some(Instant::now());", "            inner.metrics.recycled = Some(inner.metrics.created);")),
+    m('B13-7', 'metrics bumped before Manager::recycle', ['C13'], ['R13.2'],
+      (M, "        match apply_timeout(\n            self.inner.runtime,\n            TimeoutType::Recycle,", "        inner.metrics.recycle_count += 1;\n        match apply_timeout(\n            self.inner.runtime,\n            TimeoutType::Recycle,"),
+      (M, "        inner.metrics.recycle_count += 1;\n        #[cfg(not(target_arch", "        #[cfg(not(target_arch")),
+    m('B13-8', 'new objects start with recycle_count 1', ['C13'], ['R13.1'],
+      ('src/managed/metrics.rs', "            recycle_count: 0,", "            recycle_count: 1,")),
+]
+
 BENIGN = [
     m('N01-1', 'return_object: max_size >= size', ['C01'], [],
       (M, "        if slots.size <= slots.max_size {\n            slots.vec.push_back(inner);", "        if slots.max_size >= slots.size {\n            slots.vec.push_back(inner);")),
